@@ -2,7 +2,8 @@
 
 Deciding monitors: parser conservation (EntryPointToken.get returned a token and an empty rest whenever code was
 emitted), lexer conservation, arity table, whitespace/separator invariance, and - for accepted texts on which the
-reference has an opinion - agreement with the reference's parse of the COMPLETE text."""
+reference has an opinion - agreement with the reference's parse of the COMPLETE text.  Operand conservation (vf/instr/translate.py): every reference token the lexer produced was
+resolved by the translator and every literal token left its code in what was emitted."""
 import re
 
 from .. import pipeline, wbspec
@@ -17,7 +18,7 @@ ID = 'C05'
 LEVEL = 'exploration'
 RULE = ('base corpus of valid formulas (operator chains/trees of C01 + one or more formulas per supported function) each mutated '
         'by: append / insert / delete a token, duplicate an operator, drop / add a bracket, add an argument, make two operands '
-        'adjacent, double a quote, upper-case exponent, trailing %; whitespace (blank, tab, newline x1-3) inserted at every token '
+        'adjacent, double a quote, upper-case exponent, trailing %, operand % operand; whitespace (blank, tab, newline x1-3) inserted at every token '
         'boundary; "," <-> ";" swapped; every supported function x 0..7 arguments (exhaustive). Each text is translated through '
         'the entry-point API with conservation monitors on Lexer.parse / EntryPointToken.get. Non-trivial: a mutant that is not '
         'itself a valid formula of the reference grammar (reject side), or a whitespace/separator variant, or an arity outside '
@@ -66,7 +67,7 @@ def mutants(f, rng, k):
     pool = ['1', 'A1', '"x"', '+', '*', '&', '=', '<', ')', '(', ',', ';', '%', 'SUM', 'B2', '2.5', 'TRUE', '-', ':', '!', '$', '.', '#']
     for _ in range(k):
         t = list(toks)
-        m = rng.randrange(12)
+        m = rng.randrange(13)
         i = rng.randrange(len(t)) if t else 0
         if m == 0:
             t.append(rng.choice(pool))
@@ -109,6 +110,12 @@ def mutants(f, rng, k):
                 t[j] = t[j] + rng.choice(['E3', 'E-2', 'e+2', '.', '.5.5', 'x'])
         elif m == 10:
             t.append('%')
+        elif m == 12:
+            # operand % operand: the grammar lists % among the binary operators, only the translator refuses it
+            opnd = [j for j, x in enumerate(t) if re.match(r'^[A-Z]+\d+$|^\d|^"', x) or x == ')']
+            if opnd:
+                j = rng.choice(opnd)
+                t[j + 1:j + 1] = ['%', rng.choice(['A1', '3', '(2)', '"x"', 'SUM(A1:B1)', 'B2'])]
         else:
             if len(t) > 1:
                 j = rng.randrange(len(t) - 1)
@@ -159,6 +166,9 @@ def judge_text(r, tmon, book, addr, text, spec, how, base_out=None):
     for e in events:
         if e['type'] == 'parser':
             report(r, ID, None, case, e, 'token not None and empty rest whenever code is emitted', monitor='parser-conservation')
+        elif e['type'] == 'operand':
+            if e.get('text') == text:
+                report(r, ID, None, case, e, 'every reference and literal token of the formula reaches the emitted code', monitor='operand-conservation')
         else:
             report(r, ID, None, case, e, 'pieces + whitespace = text', monitor='lexer-conservation')
     if out.kind == 'FOREIGN_EXC' and out.phase in ('translate', 'load'):
@@ -173,7 +183,7 @@ def judge_text(r, tmon, book, addr, text, spec, how, base_out=None):
         outs, ref_valid = None, True
     if outs is not None and out.ok:
         r.count('ref_agreement_checks')
-        if not outcome_matches(out, outs, exact=False):
+        if not outcome_matches(out, outs, exact=False, empty_text_is_blank=True):
             report(r, ID, None, case, out.brief(), outs, monitor='complete-text-value')
     return out, ref_valid
 
